@@ -10,5 +10,7 @@ require (
 	github.com/anishathalye/porcupine v1.3.0
 	github.com/oneconcern/datamon v0.0.0-00010101000000-000000000000
 	github.com/segmentio/ksuid v1.0.4
+	github.com/spf13/afero v1.9.3
+	go.uber.org/zap v1.24.0
 	gopkg.in/yaml.v2 v2.4.0
 )
